@@ -12,6 +12,7 @@ the i-th use must see), (c) explicit plain-Python references for the arithmetic 
 import copy as _copy, re
 from pat_common import *
 import c12_registry as REG
+import c12_live as LIVE
 
 PROP = "C12"
 META = {
@@ -789,6 +790,8 @@ def check(run, only=None):
     extra_checks(run, rng, report, thorough)
     if only is not None:
         return
+    LIVE.keyorder_checks(run, rng, report, Job, run_jobs, thorough)
+    LIVE.live_checks(run, rng, report, thorough)
     model_checks(run, insts, report)
     if insts:
       run.sample({"pair": "%s.%s" % insts[0]["pair"], "scalar": to_source(insts[0]["scalar"].expr),
@@ -967,6 +970,9 @@ def replay(run, doc):
     if "case" not in doc:
         print("replay: no concrete case recorded (%s)" % doc.get("broken", "?"))
         return 1
+    if doc.get("signature", {}).get("kind") in ("pdict-key-order", "live-retarget", "live-driver-error") or doc.get("signature", {}).get("what") == "live":
+        print(doc.get("python"))
+        return LIVE.replay(run, doc)
     print(doc.get("python"))
     print("expected:", doc.get("expected"))
     print("observed:", doc.get("observed"))
